@@ -697,8 +697,16 @@ def r_iife(body):
         inner = body[ob + 1:cb].strip()
         after = re.match(r"\s*\)\s*\(\s*\)", body[cb + 1:])
         im = re.match(r"^Ok\((.*)\?\s*\)$", inner, re.S)
+        # statement form:  (|| -> Result<_, E> { STMTS; Ok(()) })().map_err(|e| e.annotate(S))?;   ->   { STMTS }
+        st = re.match(r"\s*\)\s*\(\s*\)\s*\.map_err\(\s*\|\s*\w+\s*\|\s*\w+\.annotate\([^()]*(\([^()]*\))?[^()]*\)\s*\)\s*\?\s*;", body[cb + 1:], re.S)
+        sm = re.match(r"^(.*)\bOk\(\s*\(\s*\)\s*\)$", inner, re.S)
+        if st and sm and not re.search(r"\breturn\b", inner):
+            new = "{ " + sm.group(1) + " }"
+            log.append(("R-iife", "(|| -> Result<_, E> { STMTS; Ok(()) })().map_err(|e| e.annotate(..))?;", "{ STMTS }"))
+            body = body[:mo.start()] + new + body[cb + 1 + st.end():]
+            continue
         if not after or not im or ";" in inner:
-            raise Unsupported("R-iife: only `(|| -> Result<_, E> { Ok(X?) })()` and the whole-body form are rewritten")
+            raise Unsupported("R-iife: only `(|| -> Result<_, E> { Ok(X?) })()`, the statement form ending in Ok(()) and the whole-body form are rewritten")
         new = "(" + im.group(1).strip() + ")"
         log.append(("R-iife", norm_ws(body[mo.start():cb + 1 + after.end()])[:160], norm_ws(new)[:120]))
         body = body[:mo.start()] + new + body[cb + 1 + after.end():]
@@ -926,6 +934,10 @@ def insert_loops(body, loops, where):
                 elif ch in ")]":
                     d -= 1
                 elif ch == "{" and d == 0:
+                    # `while match E { arms } { body }`: the first block belongs to the match in the condition
+                    if kw == "while" and re.match(r"\s*match\b", body[x.end():]) and not re.search(r"\}\s*$", body[x.end():k].rstrip()):
+                        k = match_close(body, m, k) + 1
+                        continue
                     break
             k += 1
         hdr = body[x.start():k]
